@@ -192,8 +192,19 @@ class Shard:
         if extra_env:
             env.update(extra_env)
         errpath = os.path.join(self.dir, "stderr.%d" % self.restarts if only is None else "only.stderr")
+        limit = None
+        if self.variant in ("plain", "checkptr"):
+            limit = PROPCFG.get(self.prop, {}).get("mem_limit_mb", 6144) * 1024 * 1024
+
+        def pre():
+            # a wild read in the library can ask the allocator for terabytes: make that die fast
+            # instead of pushing the machine into the OOM killer (sanitizer builds need their
+            # shadow mappings, so they run without the address-space limit)
+            if limit:
+                import resource
+                resource.setrlimit(resource.RLIMIT_AS, (limit, limit))
         with open(errpath, "wb") as ef:
-            p = subprocess.Popen(cmd, stdout=ef, stderr=ef, env=env, cwd=self.dir)
+            p = subprocess.Popen(cmd, stdout=ef, stderr=ef, env=env, cwd=self.dir, preexec_fn=pre)
             timed_out = False
             try:
                 rc = p.wait(timeout=watchdog)
@@ -251,8 +262,14 @@ class Shard:
                 rc2, to2, err2 = self.run_once(0, watchdog, only=key)
                 k2, f2 = classify_death(err2, rc2) if rc2 != 0 else ("survived-alone", "")
                 det = "deterministic" if (k2 == kind) else "history-dependent(alone:%s)" % k2
+                fr = frame or "no-gojson-frame"
+                shapes = []
+                m = re.match(r"shapes=([^\n]*)\n", desc or "")
+                if m:
+                    shapes = [x for x in m.group(1).split(";") if x]
+                ctxs = " + ".join("%s @ %s" % (fr, sh) for sh in shapes) if shapes else fr
                 self.deaths.append({"monitor": "process", "entry": self.variant, "kind": "fatal:" + kind if not kind.startswith(("fatal:", "checkptr", "asan")) else kind,
-                                    "ctx": frame or "no-gojson-frame",
+                                    "ctx": ctxs, "match_any": True,
                                     "detail": "worker died (rc=%s, %s) on sub-case %s: %s | %s" % (rc, det, key, desc[:300], first_lines(err)),
                                     "input": desc, "sub": key, "idx": int(key.split(".")[0])})
                 self.skip.append(key)
@@ -326,6 +343,12 @@ def match_known(known, prop, v):
     """A violation is known iff every ' + '-separated component of its ctx matches an entry."""
     comps = v["ctx"].split(" + ") if v.get("ctx") else [""]
     hit = []
+    if v.get("match_any"):
+        for c in comps:
+            e = next((e for e in known if entry_matches(e, prop, v, c)), None)
+            if e is not None:
+                return [e]
+        return None
     for c in comps:
         e = next((e for e in known if entry_matches(e, prop, v, c)), None)
         if e is None:
